@@ -89,6 +89,26 @@ def kern(id, inject, hfile, harness, tiers, expect_s, timeout_s, mem_gb, functio
 Q, T = "quick", "thorough"
 PROPERTIES = {}
 
+# "container mode": std HashMap/HashSet in network_filter_list.rs and blocker.rs are replaced by the Vec-backed
+# reference containers of harness/shim.rs (verif_shim::vm), and the call `filter.matches(..)` in the bucket scan
+# goes through the identity indirection verif_shim::rule_matches so that kernels can abstract the per-rule matcher.
+CONTAINER_SUBST = [
+    (r"^use std::\{collections::HashMap, collections::HashSet, sync::Arc\};", "use std::sync::Arc;\nuse crate::verif_shim::vm::{HashMap, HashSet};", "src/network_filter_list.rs"),
+    (r'^\s*#\[serde\(serialize_with = "crate::data_format::utils::stabilize_hashmap_serialization"\)\]\n', "", "src/network_filter_list.rs"),
+    (r"filter\.matches\(request, regex_manager\)", "crate::verif_shim::rule_matches(filter, request, regex_manager)", "src/network_filter_list.rs"),
+    (r"^use std::collections::HashSet;", "use crate::verif_shim::vm::HashSet;", "src/blocker.rs"),
+]
+CONTAINER_STUBS = ["std HashMap/HashSet in src/network_filter_list.rs and src/blocker.rs -> Vec-backed reference map/set (verif_shim::vm; linear search, insertion order)",
+                   "verif_shim::rule_matches (identity indirection for filter.matches at the bucket-scan call sites) -> M[rule id]: the per-rule matcher outcome is a free symbolic boolean per rule (decided separately under C02/C03)"]
+SCAN_LAYOUT = [("o1", "bool"), ("o2", "bool"), ("rt", "u8"), ("http", "bool"), ("https", "bool"), ("tp", "bool")]
+def scan(pid, name, harness, tags, a_on, what, tiers=(Q, T)):
+    return kern("%s.%s" % (pid, name), "src/network_filter_list.rs", "h_network_filter_list.rs", harness, list(tiers), 80, 900, 8,
+                ["network_filter_list::NetworkFilterList::check" if "all" not in harness else "network_filter_list::NetworkFilterList::check_all", "request::Request::get_tokens_for_match"],
+                "one bucket holding two rules with tags %s in this order, tag 'a' %s; per-rule matcher outcomes and request flags symbolic" % (tags, "enabled" if a_on else "not enabled"),
+                SCAN_LAYOUT, "c01_scan", asserts=what, stubs=CONTAINER_STUBS + STD_REGEX_STUBS, subst=CONTAINER_SUBST, consts={"tags": tags, "a_on": a_on, "all": "all" in harness},
+                witnesses_optional=(["W:scan.only_last_rule_matches", "W:scan.nothing_matches"] if "all" in harness else ["W:scan.both_match"]))
+
+
 def B(n):
     return ("bytes", n)
 def U64S(n):
@@ -139,6 +159,8 @@ PROPERTIES["C01"] = dict(
              "all masks (kind bits off) x request scheme class {http, https, ws/wss} x party", [("m", "u32"), ("sc", "u8"), ("tp", "bool")], "c01_scheme",
              asserts="options pass and get_tokens adds the 'http'/'https' token => the request has that scheme (so its URL carries that token)",
              stubs=[PACK], consts={"mask_clear": (1 << 18) | (1 << 21) | (1 << 24) | (1 << 28) | (1 << 15)}),
+        scan("C01", "scan.untagged", "c01_scan_untagged", [None, None], False, "check returns a rule iff some rule of the probed bucket matches, and the returned rule is a matching one"),
+        scan("C01", "scan.after_inactive_tag", "c01_scan_tagged_first_off", ["a", None], False, "a matching rule stored after a rule whose tag is not enabled is still found"),
         gt("left", True, False, [T], 560, 2400, 16),
         gt("right", False, True, [T], 590, 2400, 16),
         gt("plain", False, False, [T], 600, 2400, 16),
